@@ -86,7 +86,52 @@ def run(case: dict[str, Any]):
     return src, exp, m.unspecified, o
 
 
+_tolerant_envs: dict[str, Any] = {}
+FAILS = {"filter": "{{ 1 | divided_by: 0 }}", "partial": "{% include 'no-such-partial' %}", "arity": "{{ 'a' | upcase: 1, 2 }}"}
+
+
+def abandoned_loop_cases():
+    """A loop (or a nest of loops) left by an error in a tolerant environment, then another loop: its helpers describe that loop alone -
+    no parent loop, indexes from 1, the length of its own collection."""
+    probe = "[{% for k in (1..2) %}{{ forloop.parentloop.index }}{{ forloop.parentloop.length }}|{{ forloop.index }}/{{ forloop.length }}{% if forloop.first %}f{% endif %}{% if forloop.last %}l{% endif %};{% endfor %}]"
+    probe_exp = "[|1/2f;|2/2l;]"
+    tprobe = "[{% tablerow k in (1..2) cols: 2 %}{{ tablerowloop.index }}{{ forloop.index }}{% endtablerow %}]"
+    tprobe_exp = '[<tr class="row1">\n<td class="col1">1</td><td class="col2">2</td></tr>\n]'
+    nests = {
+        "for": ("{% for i in (1..3) %}", "{% endfor %}", lambda n: "1" * 0), "for-for": ("{% for i in (1..2) %}{% for j in (1..3) %}", "{% endfor %}{% endfor %}", None),
+        "tablerow": ("{% tablerow i in (1..3) %}", "{% endtablerow %}", None), "for-tablerow": ("{% for i in (1..2) %}{% tablerow j in (1..2) %}", "{% endtablerow %}{% endfor %}", None),
+        "for-if-for": ("{% for i in (1..2) %}{% if true %}{% for j in (1..2) %}", "{% endfor %}{% endif %}{% endfor %}", None), "for-capture": ("{% for i in (1..2) %}{% capture c %}", "{% endcapture %}{% endfor %}", None),
+    }
+    for nname, (a, b, _) in nests.items():
+        for fname, f in FAILS.items():
+            for mode in ("lax", "warn"):
+                for is_async in (False, True):
+                    # (what the abandoned node wrote before the error is not judged here: only what follows it)
+                    yield {"kind": "abandoned", "source": "<" + a + f + b + ">" + probe + tprobe, "after": ">" + probe_exp + tprobe_exp, "mode": mode, "async": is_async, "mech": nname}
+                    yield {"kind": "abandoned", "source": "{% for o in (1..2) %}" + a + f + b + "{% endfor %}" + probe, "after": probe_exp, "mode": mode, "async": is_async, "mech": "for-" + nname}
+
+
+def judge_abandoned(ctx: core.Ctx, case: dict[str, Any]) -> None:
+    mode = case["mode"]
+    if mode not in _tolerant_envs:
+        _tolerant_envs[mode] = drv.make_env({"mode": mode})
+    with drv.Warnings():
+        o = drv.parse_and_render(_tolerant_envs[mode], case["source"], {}, use_async=case.get("async", False))
+    ctx.count("loops_after_an_abandoned_loop")
+    ctx.evaluations += 1
+    if not o.ok:
+        ctx.violation(f"abandoned-loop:raises-{o.err_class}", f"{case['source']!r:.200} ({mode}) raised {o.err_class}")
+        return
+    if not o.value.endswith(case["after"]):
+        ctx.violation(f"abandoned-loop:helpers-of-the-next-loop:{case['mech']}", f"{case['source']!r:.300} ({mode}) rendered {o.value!r:.200}; the loop after the abandoned one should print {case['after']!r}")
+        return
+    ctx.ok((case["source"], mode), nontrivial=True)
+
+
 def judge(ctx: core.Ctx, case: dict[str, Any]) -> None:
+    if case.get("kind") == "abandoned":
+        judge_abandoned(ctx, case)
+        return
     src, exp, unspec, o = run(case)
     if unspec:
         ctx.unspecified("continue-after-out-of-range-offset")
@@ -239,6 +284,9 @@ def gen_nest(rng) -> dict[str, Any]:
 
 
 def cases(ctx: core.Ctx):
+    for gi, c in enumerate(abandoned_loop_cases()):
+        if gi % ctx.nshards == ctx.shard:
+            yield c
     rng = ctx.rng("cases")
     n = 4 if ctx.tier == "quick" else 8
     sample = 0.35 if ctx.tier == "quick" else 1.0
